@@ -936,9 +936,10 @@ pub fn units() -> Vec<Unit> {
     Unit {
         module: "Gen.PlanSelectFn",
         file: "lorawan-device/src/region/dynamic_channel_plans/mod.rs",
-        more_files: vec!["lorawan-device/src/region/mod.rs", "lorawan-device/src/region/constants.rs", "lorawan-device/src/mac/mod.rs", "lorawan-encoding/src/types.rs"],
-        imports: vec!["LoraVerif.Gen.Region", "LoraVerif.Gen.ChannelMaskFn"],
+        more_files: vec!["lorawan-device/src/region/mod.rs", "lorawan-device/src/region/constants.rs", "lorawan-device/src/mac/mod.rs", "lorawan-encoding/src/types.rs", "lorawan-device/src/region/fixed_channel_plans/mod.rs", "lorawan-device/src/region/fixed_channel_plans/join_channels.rs"],
+        imports: vec!["LoraVerif.Gen.Modulation", "LoraVerif.Gen.Region", "LoraVerif.Gen.ChannelMaskFn"],
         items: vec![
+            ExternUnit("Gen.Modulation"),
             ExternUnit("Gen.Region"),
             ExternUnit("Gen.ChannelMaskFn"),
             Enum("Frame"),
@@ -955,6 +956,23 @@ pub fn units() -> Vec<Unit> {
             Struct("TxChannel"),
             Fn("DynamicChannelPlan::get_random_in_range"),
             TraitFn("RegionHandler", "DynamicChannelPlan", "select_tx_channel"),
+            // the fixed plans (US915 / AU915): `FixedChannelPlan::select_tx_channel` with the join bias bookkeeping of
+            // `JoinChannels` (`has_bias_and_not_exhausted`, `first_data_channel`, `clear_join_bias`); the bank walk
+            // `JoinChannels::get_next_channel` is abstract (`JcOps`)
+            Enum("Subband"),
+            ExternStructRaw("AvailableChannels", &[]),
+            Struct("JoinChannels"),
+            StructPartial("FixedChannelPlan", &["channel_mask", "join_channels"]),
+            ExternConst("F::JOIN_DR_500KHZ", "DR", "F.JOIN_DR_500KHZ"),
+            ExternFn("F::datarates", "F.datarates", &[], "[Option<Datarate>]"),
+            ExternFn("F::uplink_channels", "F.uplink_channels", &[], "[u32]"),
+            ExternFn("F::downlink_channels", "F.downlink_channels", &[], "[u32]"),
+            Raw(PLAN_SELECT_RAW2),
+            ExternFnX("JoinChannels::get_next_channel", "JcOps.get_next_channel", &[("self", "JoinChannels"), ("rng", "RNG")], "u8", &["self", "rng"], true),
+            Fn("JoinChannels::has_bias_and_not_exhausted"),
+            Fn("JoinChannels::clear_join_bias"),
+            Fn("JoinChannels::first_data_channel"),
+            TraitFn("RegionHandler", "FixedChannelPlan", "select_tx_channel"),
         ],
     },
     ]
@@ -1298,4 +1316,21 @@ variable {RNG : Type} [RngCore RNG]
 class LoopFuel where
   fuel : Nat
 variable [LoopFuel]
+/-- what `FixedChannelPlan::select_tx_channel` reads of the plan's region type `F: FixedChannelRegion` -/
+structure FixRegion where
+  JOIN_DR_500KHZ : DR
+  datarates : List (Option Datarate)
+  uplink_channels : List Int
+  downlink_channels : List Int
+variable (F : FixRegion)
+/-- `AvailableChannels` (the join-channel walk: a `ChannelMask<9>` of the channels not tried yet, the last one tried) -/
+structure AvailableChannels where
+  data : ChannelMask
+  previous : Option Int
+  deriving DecidableEq, Repr
+"#;
+const PLAN_SELECT_RAW2: &str = r#"/-- the bank walk `JoinChannels::get_next_channel(&mut self, rng)` (`none` = a panic or its redraw loop out of fuel) -/
+class JcOps (RNG : Type) where
+  get_next_channel : JoinChannels → RNG → Option (Int × JoinChannels × RNG)
+variable [JcOps RNG]
 "#;
